@@ -42,6 +42,9 @@ def cpp_type(layers):
     inner = cpp_type(layers[1:]) if len(layers) > 1 else None
     B = "covfie::backend::"
     if k == "array":
+        if l.get("user_desc"):
+            # an application-defined vector descriptor (any type with `type` and `size` satisfies the concept)
+            return f"{B}array<vf::user_desc<{CPP_SCALAR[l['out']]},{l['M']}>>"
         return f"{B}array<{vec(l['out'], l['M'])}>"
     if k == "identity":
         return f"{B}identity<{vec(l['in'], l['N'])}>"
@@ -259,6 +262,12 @@ FIXED = [
 
 # stacks whose view is within 8*N bytes of the 256-byte limit of field_view: a layer whose view grows by a few words
 # pushes them over the limit (they are part of every cover, but not of the fixed catalogue behind the golden files)
+# storage described by an application-defined vector descriptor instead of vector_d (part of every cover)
+USER_DESC = [
+    [("affine", {}), ("nearest_neighbour", {"in": "float"}), ("strided", {"N": 3, "in": "size_t"}), ("array", {"M": 3, "out": "double", "user_desc": True})],
+    [("strided", {"N": 2, "in": "size_t"}), ("array", {"M": 2, "out": "float", "user_desc": True})],
+]
+
 FAT = [
     [("backup", {}), ("backup", {}), ("backup", {}), ("strided", {"N": 3, "in": "size_t"}), ("array", {"M": 3, "out": "double"})],
     [("backup", {}), ("backup", {}), ("strided", {"N": 4, "in": "size_t"}), ("array", {"M": 4, "out": "double"})],
@@ -305,7 +314,7 @@ def cover(seed, budget, min_stacks=0, max_depth=5):
     adjacent-kind pair is covered (and at least min_stacks are chosen) or `budget` stacks are chosen."""
     rng = random.Random(f"{seed}:stack-cover")
     chosen, seen_types, covered = [], set(), set()
-    for spec in FIXED + FAT:
+    for spec in FIXED + FAT + USER_DESC:
         l = finish(spec)
         if view_size(l)[0] > 256:
             raise AssertionError("a catalogue stack exceeds the view limit: " + cpp_type(l))
